@@ -175,6 +175,10 @@ class SymObj(SymRef):
             return
         raise PyExc(AttributeError, (name,))
 
+    def _vf_dict_items(self, interp):
+        """the instance dict, as functools.update_wrapper copies it"""
+        return [(k, s.v_inst) for k, s in self.slots.items() if _dec(s.inst)]
+
     def _vf_isinstance(self, interp, c):
         from . import interp as I
         if c is I.BoundMethod:
